@@ -38,10 +38,23 @@ def worker():
         }
         return type(name, (GridObject,), body)
 
+    from gym_gridverse.grid_object import Door
+
+    # the built-in kinds have been in use (indices asked for, objects compared and hashed) before
+    _ = [k.type_index() for k in builtin]
+    _ = (Door(Door.Status.OPEN, Color.RED) == Door(Door.Status.OPEN, Color.RED), hash(Wall()), hash(Door(Door.Status.CLOSED, Color.BLUE)))
     Gem = user_class('Gem')
     UserWall = user_class('Wall')  # a user's own class that happens to be called like a built-in one
     UserKey = user_class('Key')
-    users = [Gem, UserWall, UserKey]
+    Gate = type('Gate', (Door,), {})  # a user's kind derived from a concrete built-in kind
+    Window = type('Window', (Wall,), {'blocks_vision': False})  # ... overriding what its instances let through
+    def _pane_init(self, tinted=False):
+        self.blocks_vision = tinted  # decided per instance, over the class-level default inherited from Wall
+
+    Pane = type('Pane', (Wall,), {'__init__': _pane_init})
+    users = [Gem, UserWall, UserKey, Gate, Window, Pane]
+    if Gate(Door.Status.OPEN, Color.RED) == Door(Door.Status.OPEN, Color.RED) or Window() == Wall():
+        out.append({'signature': 'object/different-kinds-compare-equal', 'what': 'a user kind derived from Door / Wall equals the built-in object of the same status and colour'})
     # 1. the registry still resolves the built-in names to the built-in classes, and the new name to the new class
     for name, cls in (('Wall', Wall), ('Key', Key), ('Floor', Floor), ('Gem', Gem)):
         try:
@@ -95,6 +108,30 @@ def worker():
             out.append({'signature': 'factory/reset-state-outside-the-declared-space', 'what': os.path.basename(f)})
     except Exception as e:
         out.append({'signature': 'factory/shipped-config-fails-with-user-classes', 'what': f'{type(e).__name__}: {e}'})
+    # 6. what an object lets through is asked of the object: a see-through user kind derived from Wall does
+    # not hide what is behind it, a user kind derived from Door hides it exactly while it is not open
+    # (whatever instance of that kind was looked at before)
+    try:
+        from gym_gridverse.envs import visibility_functions as vf
+        from gym_gridverse.geometry import Position
+        from gym_gridverse.grid import Grid
+
+        def column(front):
+            return Grid([[Floor()], [front], [Floor()]])
+
+        pov = Position(2, 0)
+        for name in ('raytracing', 'partially_occluded'):
+            f = vf.visibility_function_registry[name]
+            for front, behind_visible, what in ((Window(), True, 'a see-through Window(Wall)'), (Pane(), True, 'a clear Pane(Wall) (set per instance)'), (Pane(True), False, 'a tinted Pane(Wall)'), (Gate(Door.Status.OPEN, Color.RED), True, 'an open Gate(Door)'),
+                                                (Gate(Door.Status.CLOSED, Color.RED), False, 'a closed Gate(Door) after an open one was looked at'),
+                                                (Wall(), False, 'a Wall'), (Gate(Door.Status.OPEN, Color.RED), True, 'an open Gate(Door) after a closed one')):
+                if front.blocks_vision == behind_visible:
+                    continue
+                m = f(column(front), pov)
+                if bool(m[0, 0]) != behind_visible:
+                    out.append({'signature': f'{name}/visibility-ignores-what-the-object-lets-through', 'what': f'{what}: the cell behind it is {"visible" if m[0, 0] else "hidden"}'})
+    except Exception as e:
+        out.append({'signature': 'visibility/raises-with-user-kinds', 'what': f'{type(e).__name__}: {e}'})
     # 5. the shipped example with its own object class (imported by the factory, i.e. registered only now),
     # built after all of the above
     try:
